@@ -80,12 +80,28 @@ def tla_const(v):
 
 
 def run(module, workdir, tag, *, cfg=None, env=None, workers=1, timeout=900, simulate=None, depth=None,
-        seed=None, dfs=False, coverage=False, dump=None, extra=(), heap_gb=8, **cfgkw):
+        seed=None, dfs=False, coverage=False, dump=None, extra=(), heap_gb=8, defs=None, **cfgkw):
     """Run TLC on spec/<module>.tla with a generated cfg.  Returns TlcResult.
 
     simulate: None (BFS model checking) or dict(num=..., file=optional prefix)
     """
     os.makedirs(workdir, exist_ok=True)
+    root = os.path.join(SPEC_DIR, module + '.tla')
+    if defs:
+        # constants that a cfg file cannot express (negative numbers, sets of tuples, ...) become definitions of a
+        # generated root module  MC_<tag>  that extends the specification
+        mc = f'MC_{tag}'
+        root = os.path.join(workdir, mc + '.tla')
+        with open(root, 'w') as f:
+            f.write(f'---- MODULE {mc} ----\nEXTENDS {module}\n')
+            for k, v in defs.items():
+                f.write(f'def_{k} == {v}\n')
+            f.write('====\n')
+        cfgkw = dict(cfgkw)
+        consts = dict(cfgkw.get('constants') or {})
+        for k in defs:
+            consts[k] = f'<- def_{k}'
+        cfgkw['constants'] = consts
     cfg_path = os.path.join(workdir, f'{tag}.cfg')
     with open(cfg_path, 'w') as f:
         f.write(cfg if cfg is not None else _cfg_text(**cfgkw))
@@ -94,6 +110,7 @@ def run(module, workdir, tag, *, cfg=None, env=None, workers=1, timeout=900, sim
     java = ['java', f'-Xmx{heap_gb}g', '-Xss256m', '-XX:+UseParallelGC']
     if dfs:
         java.append('-Dtlc2.tool.queue.IStateQueue=StateDeque')
+    java.append(f'-DTLA-Library={SPEC_DIR}')
     cmd = java + ['-cp', JAR, 'tlc2.TLC', '-workers', str(workers), '-metadir', meta, '-noGenerateSpecTE',
                   '-config', cfg_path]
     if simulate is not None:
@@ -110,14 +127,14 @@ def run(module, workdir, tag, *, cfg=None, env=None, workers=1, timeout=900, sim
     if dump:
         cmd += ['-dump', dump]
     cmd += list(extra)
-    cmd.append(os.path.join(SPEC_DIR, module + '.tla'))
+    cmd.append(root)
     e = dict(os.environ)
     e.pop('JAVA_TOOL_OPTIONS', None)
     if env:
         e.update({k: str(v) for k, v in env.items()})
     t0 = time.time()
     try:
-        p = subprocess.run(cmd, cwd=SPEC_DIR, env=e, stdout=subprocess.PIPE, stderr=subprocess.STDOUT,
+        p = subprocess.run(cmd, cwd=os.path.dirname(root), env=e, stdout=subprocess.PIPE, stderr=subprocess.STDOUT,
                            timeout=timeout, text=True)
     except subprocess.TimeoutExpired as ex:
         subprocess.run(['pkill', '-f', meta], check=False)
